@@ -25,7 +25,7 @@ ALL_CB = ["on_open", "on_message", "on_data", "on_ping", "on_pong", "on_error", 
 
 def bounds(tier):
     if tier == "quick":
-        return ("32 endings x {no ping thread, ping thread} x {plain, TLS}; preemption bound 1 at synchronisation points for ping-thread scenarios; closer thread: "
+        return ("34 endings x {no ping thread, ping thread} x {plain, TLS}; preemption bound 1 at synchronisation points for ping-thread scenarios; closer thread: "
                 "1 preemption at every synchronisation point (all scenarios) and at every executed line (one scenario)")
     return ("same scenarios; preemption bound 2 at synchronisation points; closer thread: 1 preemption at every executed library line for every closer scenario, 2 at synchronisation points")
 
@@ -72,6 +72,10 @@ def endings():
     for cb in ("on_open", "on_message", "on_data", "on_ping", "on_pong"):
         for reaction in ("reply+eof", "silent", "eof"):
             E.append(("close-from-%s/%s" % (cb, reaction), dict(tail=[], close_from=cb, on_close=reaction), dict(close=(None, None), err=False)))
+    # the server ignores the client's close frame and keeps talking (a message every 0.5 s for longer than the horizon of the run): close() gives up after its timeout
+    for cb in ("on_open", "on_message"):
+        E.append(("close-from-%s/ignored-by-chatty-server" % cb, dict(tail=[(2.0 + 0.5 * i, "data", R.encode(R.TEXT, b"c")) for i in range(700)], close_from=cb, on_close="silent"),
+                  dict(close=(None, None), err=False)))
     for cb in ("on_open", "on_message", "on_ping"):
         E.append(("keyboardinterrupt-in-%s" % cb, dict(tail=[(6.0, "eof", b"")], ki=cb), dict(close=(None, None), err=True)))
     E.append(("close-from-on_error/eof", dict(tail=[(3.0, "eof", b"")], close_from="on_error", on_close="reply+eof"), dict(close=(None, None), err=True)))
